@@ -73,6 +73,15 @@ theorem fill_is_model (checked : Bool) (p : Prim) (buf : Slice Nat) (ws : Words)
   rw [fill_is_one_sample_per_slot]
   exact forEachSlot_is_seqSample checked p _ ws
 
+/-- **arrays `[T; N]` as translated** (`array::from_fn` over one `StandardUniform` sample per element, in index order) are the model's `seqSample` of
+`N` components -/
+theorem array_is_model (checked : Bool) (p : Prim) (N : Nat) (ws : Words) :
+    Standard.array_sample mockR (primDist checked p) N ws = seqSample checked (List.replicate N p) ws := by
+  have h : Standard.array_sample mockR (primDist checked p) N = forEachSlot (m := DrawM) N (primSample checked p) := by
+    simp [Standard.array_sample, primDist]
+  rw [h]
+  exact forEachSlot_is_seqSample checked p N ws
+
 /-! ### the `NonZero*` loop -/
 
 /-- `NonZero::new`: `None` for zero -/
